@@ -293,16 +293,20 @@ def extra_engine(tier, seed, ctx):
             cmd = [sys.executable, "-W", "ignore", "-m", "pbt.fuzz_c09", res, corpus,
                    "-runs=400000", f"-seed={seed + 1}", "-max_total_time=150", "-max_len=96",
                    "-print_final_stats=0", "-verbosity=0"]
-            p = subprocess.run(cmd, capture_output=True, text=True, timeout=400)
+            try:
+                p = subprocess.run(cmd, capture_output=True, text=True, timeout=400)
+                code, err = p.returncode, p.stderr
+            except subprocess.TimeoutExpired:
+                code, err = None, "campaign killed after 400 s (an input that never returns from the matcher): inconclusive"
             data = json.load(open(res)) if os.path.exists(res) else {"stats": {}, "violation": None}
-            camp = {"name": name, "seed_inputs": len(corpus_seeds), "exit": p.returncode, **data.get("stats", {})}
+            camp = {"name": name, "seed_inputs": len(corpus_seeds), "exit": code, **data.get("stats", {})}
             out["campaigns"].append(camp)
             v = data.get("violation")
             if v:
                 case = {"text": v["pattern"], "max_repeat": v["max_repeat"], "seed": v["seed"]}
                 out["failures"].append((case, v["key"], v["detail"]))
-            elif p.returncode not in (0,):
-                camp["note"] = (p.stderr or "")[-300:]
+            elif code not in (0,):
+                camp["note"] = (err or "")[-300:]
         finally:
             shutil.rmtree(work, ignore_errors=True)
     ctx.evaluations += sum(c.get("execs", 0) for c in out["campaigns"])
